@@ -928,7 +928,7 @@ impl BuilderArea {
                     Err(_) => "panic".into(),
                 }
             }
-            _ => return None,
+            _ => return self.text_step(ws, cx),
         };
         Some(ans)
     }
